@@ -94,10 +94,67 @@ theorem gen_shortPairs (N : Net L K) (keep : List (Py.Elt K)) :
   funext vs
   by_cases h : vs.n1 = N.zero <;> simp [h]
 
+/-- one pass of the generated loop in terms of the hand model: `pairs[k]`, orientation by the
+reference-node rule, contraction step, renaming of the pair list -/
+def loopPass (z : L) (acc : List (Branch L K) × List (L × L)) (k : Nat) :
+    Except Err (List (Branch L K) × List (L × L)) :=
+  match acc.2[k]? with
+  | some p => .ok (contractStep acc.1 (orient z p).1 (orient z p).2, acc.2.map (renPair (orient z p).1 (orient z p).2))
+  | none => .error .keyError
+
+/-- the indexed loop `for k in range(len(pairs))`, which renames the *whole* pair list in every
+pass, is the recursion `contractAll` over the pairs that remain: `pairs[k]` never raises (the
+list keeps its length) and the passes never look at the pairs already used -/
+theorem gen_loop_aux {β : Type} (z : L)
+    (f : List (Branch L K) × List (L × L) → Nat → Except Err (List (Branch L K) × List (L × L)))
+    (hf : ∀ acc k, f acc k = loopPass z acc k) (g : List (Branch L K) → Except Err β) :
+    ∀ (n : Nat) (rest done : List (L × L)) (bs : List (Branch L K)), rest.length = n →
+      ((List.range' done.length n).foldlM f (bs, done ++ rest) >>= fun acc => g acc.1)
+        = g (contractAll z rest bs) := by
+  intro n
+  induction n with
+  | zero =>
+    intro rest done bs hl
+    have : rest = [] := List.length_eq_zero_iff.mp hl
+    subst this
+    rw [contractAll]
+    rfl
+  | succ n ih =>
+    intro rest done bs hl
+    cases rest with
+    | nil => simp at hl
+    | cons p ps =>
+      have hidx : (done ++ p :: ps)[done.length]? = some p := by simp
+      rw [contractAll, List.range'_succ, List.foldlM_cons, hf, loopPass]
+      simp only [hidx]
+      have hm : (done ++ p :: ps).map (renPair (orient z p).1 (orient z p).2)
+          = (done.map (renPair (orient z p).1 (orient z p).2) ++ [renPair (orient z p).1 (orient z p).2 p])
+            ++ ps.map (renPair (orient z p).1 (orient z p).2) := by simp
+      have hlen : done.length + 1
+          = (done.map (renPair (orient z p).1 (orient z p).2) ++ [renPair (orient z p).1 (orient z p).2 p]).length := by simp
+      rw [hm, hlen]
+      exact ih _ _ _ (by simpa using hl)
+
+theorem gen_loop {β : Type} (z : L)
+    (f : List (Branch L K) × List (L × L) → Nat → Except Err (List (Branch L K) × List (L × L)))
+    (hf : ∀ acc k, f acc k = loopPass z acc k) (g : List (Branch L K) → Except Err β)
+    (pairs : List (L × L)) (bs : List (Branch L K)) :
+    ((List.range pairs.length).foldlM f (bs, pairs) >>= fun acc => g acc.1) = g (contractAll z pairs bs) := by
+  have := gen_loop_aux z f hf g pairs.length pairs [] bs rfl
+  simpa [List.range_eq_range'] using this
+
 theorem gen_removeShort (N : Net L K) (keep : List (Py.Elt K)) :
     remove_short_circuit_elements N keep = removeShort N (keep.map ElemKey.ofElt) := by
   unfold remove_short_circuit_elements removeShort
-  simp only [gen_construct, gen_shortPairs, gen_contractStep]
+  refine (gen_loop N.zero _ ?_ (fun bs => Py.construct Gen.Core.Network.post_init bs N.zero) _ _).trans ?_
+  · intro acc k
+    simp only [loopPass, Py.listIndex, gen_contractStep, gen_is_zero_node]
+    cases acc.2[k]? with
+    | none => rfl
+    | some p =>
+      simp only [bind, Except.bind, pure, Except.pure, orient, renPair, decide_eq_true_eq]
+      by_cases hz : p.1 = N.zero <;> simp [hz, contractStep, renPair, gen_mkBranch_n1, gen_mkBranch_n2]
+  · rw [gen_construct, gen_shortPairs]
 
 theorem gen_zeroInVoltage (b : Branch L K) :
     Py.mkBranch b.n1 b.n2 (impedance b.id (Py.XVal.toNum (Gen.Core.Elem.Z b.e))) = zeroInVoltage b := by
